@@ -3,11 +3,11 @@ import KinModel.Conc
 import KinModel.ConcCase
 namespace KinModel.Conc
 
-theorem cache_cell_ge (c : CaseM) : ∀ x : Nat, x ∈ (caseCfg c).cache → 10 ≤ x ∧ x % 2 = 1 := by
+theorem cache_cell_ge (c : CaseM) : ∀ x : Nat, x ∈ (caseCfg c).cache → 10 ≤ x ∧ x % 3 = 2 := by
   intro x hx
   simp only [caseCfg, List.mem_map] at hx
   obtain ⟨o, _, rfl⟩ := hx
-  show 10 ≤ 11 + 2 * o.genType ∧ (11 + 2 * o.genType) % 2 = 1
+  show 10 ≤ 11 + 3 * o.genType ∧ (11 + 3 * o.genType) % 3 = 2
   omega
 
 theorem small_not_cache (c : CaseM) (x : Nat) (h : x < 10) : (caseCfg c).cache.contains x = false := by
@@ -24,17 +24,25 @@ theorem opActs_clean (c : CaseM) (tid : Nat) (o : OpM) (ho : o ∈ c.ops) :
   have rd : ∀ x : Nat, x < 10 → cleanAct (caseCfg c) (.read x) = true := by
     intro x hlt; simp [cleanAct, small_not_mem c x hlt]
   simp only [opActs, List.mem_append] at ha
-  rcases ha with ((((ha | ha) | ha) | ha) | ha) | ha
+  rcases ha with (((((ha | ha) | ha) | ha) | ha) | ha) | ha
   · simp only [List.mem_singleton] at ha; subst ha; exact rd 0 (by omega)
   · split at ha
     · simp only [List.mem_singleton] at ha; subst ha; exact rd 1 (by omega)
+    · simp at ha
+  · split at ha
+    · obtain ⟨d, rfl, _, _⟩ := mem_readsFrom (sliceCell o.item) _ _ a ha
+      have hn : sliceCell o.item d ∉ (caseCfg c).cache := fun hm => by
+        have h := (cache_cell_ge c (sliceCell o.item d) hm).2
+        have : (12 + 3 * (64 * o.item + d)) % 3 = 2 := h
+        omega
+      simp [cleanAct, hn]
     · simp at ha
   · split at ha
     · simp only [List.mem_map] at ha
       obtain ⟨p, _, rfl⟩ := ha
       have hn : patCell p ∉ (caseCfg c).cache := fun hm => by
         have h := (cache_cell_ge c (patCell p) hm).2
-        have : (10 + 2 * p) % 2 = 1 := h
+        have : (10 + 3 * p) % 3 = 2 := h
         omega
       simp [cleanAct, hn]
     · simp at ha
